@@ -151,6 +151,7 @@ type frame struct {
 	parent      *frame          // the frame this one is inlined into
 	parentSite  ssa.Instruction // the call instruction in parent that was inlined
 	pendingSite ssa.Instruction
+	guardedRefs map[ssa.Value]guardedRef
 	aliasLocals map[string]string // recorded name the function no longer has -> current name of that variable
 	aliasParams map[string]int
 }
@@ -1138,6 +1139,12 @@ func (fr *frame) loopHeader(h *ssa.BasicBlock, st *bstate) *bstate {
 		v := f.freshVal(fmt.Sprintf("phi.%s", p.Name()), p.Type())
 		f.assumeTypeRange(nst, v)
 		fr.vals[p] = v
+		for _, e := range p.Edges {
+			fr.guardedRefHandedOn(e, nst, "kept in a variable", p.Pos())
+			if gr, ok := fr.guardedRefs[e]; ok {
+				fr.guardedRefs[p] = gr
+			}
+		}
 	}
 	// 3a. type invariants of the parameters are loop invariants too (checked on every back edge)
 	if fr.top && !(fr.spec != nil && fr.spec.Helper) {
